@@ -561,11 +561,28 @@ func c20Fetch(x *xctx) *violation {
 		pct = []int{50, 85, 97}[t.Choose(K, 3)]
 	}
 	c := &c16case{diffBase: nb > 0 && t.Bool(K, 40), hasBase: nb > 0}
+	// The same program in several builds and at two load addresses, with local
+	// binaries installed for some builds: what one fetch learns about a binary
+	// must not leak into the fetch running next to it.
+	multiBuild := t.Bool(K, 35)
+	if multiBuild {
+		for _, id := range []string{"b1d", "b2d", "b3d"} {
+			if t.Bool(K, 60) {
+				c.binaries = append(c.binaries, id)
+			}
+		}
+	}
 	for i := 0; i < n+nb; i++ {
 		s := &c16src{idx: i, base: i >= n, kind: t.Choose(K, 3)}
 		s.fault = c16FaultFor(t, s.kind, pct)
 		s.samples = c16GenSamples(t)
 		s.tornAt = 1 + t.Choose(simrt.KFault, 200)
+		if multiBuild {
+			s.buildID = []string{"b1d", "b2d", "b3d"}[t.Choose(K, 3)]
+			if t.Bool(K, 40) {
+				s.layout = 1
+			}
+		}
 		s.materialize()
 		c.srcs = append(c.srcs, s)
 	}
